@@ -275,4 +275,9 @@ pub struct Scenario {
     /// free-form labels of the profile that generated it (for evidence signatures)
     #[serde(default)]
     pub profile: String,
+    /// non-zero: certificates and proposals reach the builders the way they come out of another
+    /// producer's bytes (decoded from an equal-valued foreign encoding: nested sets without tag 258,
+    /// wide heads, indefinite arrays), each occurrence with its own encoding
+    #[serde(default)]
+    pub alt_values: u8,
 }
